@@ -163,6 +163,9 @@ def endless_heads():
     many = line + b''.join(b'H%d: v\r\n' % i for i in range(130)) + b'\r\n'
     out.append(('125headers', [many]))
     out.append(('noterm', [line + b'Host: x\r\n' + b'A' * 3000]))
+    out.append(('slow128', [big[i * 128:(i + 1) * 128] for i in range(64)] + [big[8192 + i * 4096: 8192 + (i + 1) * 4096] for i in range(20)]))
+    out.append(('slow200', [big[i * 200:(i + 1) * 200] for i in range(70)] + [big[14000 + i * 4096: 14000 + (i + 1) * 4096] for i in range(18)]))
+    out.append(('k1024', [big[i * 1024:(i + 1) * 1024] for i in range(72)]))
     out.append(('drip1b', [bytes([b]) for b in big[:200]]))
     out.append(('drip100', [big[i:i + 100] for i in range(0, 100 * 90, 100)]))
     return out
